@@ -177,3 +177,15 @@ impl RxMode {
         }
     }
 }
+
+#[cfg(lora_rs_verif)]
+impl<RK, DLY, const P: u8, const G: i8> LorawanRadio<RK, DLY, P, G>
+where
+    RK: RadioKind,
+    DLY: DelayNs,
+{
+    /// verification hook (read-only): the wrapped physical layer
+    pub fn verif_lora(&self) -> &LoRa<RK, DLY> {
+        &self.lora
+    }
+}
